@@ -274,7 +274,7 @@ fn run(args: Args) -> Report {
     let t0 = Instant::now();
     let mut n = 0u64;
     while t0.elapsed().as_secs_f64() < args.budget_s {
-        let case_seed = r.next_u64();
+        let Some(case_seed) = args.next_case(&mut r) else { break };
         let mut cr = Rng::new(case_seed);
         let tw = tgen::generate(&mut cr);
         journal.begin("typed", files_json(&tw.files()).to_string().as_bytes());
